@@ -11,7 +11,12 @@ other time grids, passed to simulate() or as the maturity of a derivative): (n_p
 n_steps * dt >= horizon, on every primary class; every way of asking for a dtype (constructor argument, to(dtype), to(dtype=...), double() float64() float()
 float32() half() float16() bfloat16()) under BOTH global default dtypes, before the first simulate() and on a simulated instrument; user classes
 derived from the eight primary classes that override the documented hook default_init_state (floats, 0-dim tensors, computed from an attribute
-set in an overridden __init__): simulated without init_state the first column is the default of the derived class.
+set in an overridden __init__): simulated without init_state the first column is the default of the derived class; NON-default initial
+states in every spelling (tuples of floats / 0-dim tensors / 1-element tensors / ints, bare float / tensor / int, tensors in either dtype) for every
+generator and instrument in both dtypes, the jump models at zero intensity (0 and 0.0) and at a positive one (runs without jumps driven by a supplied
+engine also against the model, op gen); a SECOND dtype request on an instrument that already carries an explicit dtype (constructor argument or an
+earlier cast) and has been simulated in it: the existing buffers follow at once (every spelling, to(tensor), to(instrument), a cast of a derivative
+written on the instrument; a device-only call afterwards changes nothing), also replayed in the system model.
 correspondence with the system model (Model/InstrSys.lean, op "instr_sys", theorems Lemmas/C11Buffers.lean): every instrument session
 (repeated simulate() with changing n_paths / horizon on every primary class and dtype, user register_buffer calls in between that
 overwrite a simulated buffer with another shape) is replayed in the model; after every call the buffers' names, dtypes, shapes, the
@@ -22,6 +27,74 @@ from common import *  # noqa
 from stoch_common import *  # noqa
 
 POSITIVE = {"geometric_brownian", "heston", "merton_jump", "kou_jump", "rough_bergomi"}
+
+
+class KeepingEngine:
+    """an `engine` that draws standard normals and keeps a copy of every tensor it hands out"""
+
+    def __init__(self, torch):
+        self.torch, self.draws = torch, []
+
+    def __call__(self, *size, dtype=None, device=None):
+        z = self.torch.randn(*size, dtype=dtype, device=device)
+        self.draws.append(z.clone())
+        return z
+
+
+def jumpless_requests(name, p, z):
+    """model requests (op gen, one per path) of a Brownian / geometric Brownian / jump-model run in which NO jump was drawn, driven by the
+    normals `z` (n_paths, n_steps) that the caller's engine handed out: the model needs no jump draws then"""
+    fb = float_bits
+    N, n = z.shape
+    out = []
+    for r in range(N):
+        zr = enc_flt([float(x) for x in z[r].tolist()])
+        if name in ("brownian", "geometric_brownian"):
+            out.append({"op": "gen", "name": name, "p": {k: fb(p[k]) for k in ("init", "sigma", "mu", "dt")}, "draws": {"z": zr}})
+        elif name == "merton_jump":
+            out.append({"op": "gen", "name": name, "p": {k: fb(p[k]) for k in ("init", "mu", "sigma", "lam", "jm", "js", "dt")},
+                        "draws": {"nj": enc_flt([0.0] * (n - 1)), "zj": enc_flt([0.0] * (n - 1)), "z": zr}})
+        else:
+            out.append({"op": "gen", "name": name,
+                        "p": {"init": fb(p["init"]), "sigma": fb(p["sigma"]), "mu": fb(p["mu"]), "lam": fb(p["lam"]), "eta_up": fb(1 / p["mean_up"]),
+                              "eta_down": fb(1 / p["mean_down"]), "p_up": fb(p["p_up"]), "dt": fb(p["dt"])},
+                        "draws": {"jumps": enc_flt([[] for _ in range(n - 1)]), "z": zr}})
+    return out
+
+
+def run_generator_c11(torch, S, name, p, dtype):
+    """run_generator of stoch_common; a jump model at ZERO intensity is free not to draw any jump counts (there is nothing to draw), so when
+    the recording finds no Poisson draw there, the generator is called again with an engine that keeps the normals it hands out, and the
+    model requests are those of a run without jumps driven by the normals of that call (every predicate is evaluated on that call)"""
+    try:
+        return run_generator(torch, name, p, dtype)
+    except InternalError as e:
+        if not (name in ("merton_jump", "kou_jump") and p["lam"] == 0.0 and "poisson" in str(e)):
+            raise
+    eng = KeepingEngine(torch)
+    if name == "merton_jump":
+        o = S.generate_merton_jump(p["N"], p["n"], init_state=(p["init"],), mu=p["mu"], sigma=p["sigma"], jump_per_year=p["lam"], jump_mean=p["jm"],
+                                   jump_std=p["js"], dt=p["dt"], dtype=dtype, engine=eng)
+    else:
+        o = S.generate_kou_jump(p["N"], p["n"], init_state=(p["init"],), sigma=p["sigma"], mu=p["mu"], jump_per_year=p["lam"], jump_mean_up=p["mean_up"],
+                                jump_mean_down=p["mean_down"], jump_up_prob=p["p_up"], dt=p["dt"], dtype=dtype, engine=eng)
+    zs = [z for z in eng.draws if tuple(z.shape) == (p["N"], p["n"])]
+    return {"spot": o}, (jumpless_requests(name, p, zs[-1]) if zs else []), None
+
+
+def init_spellings(torch, state, tdtype):
+    """the ways of writing ONE initial state `state` (a tuple of floats): [(name of the spelling, init_state argument)].  Tensors are given
+    in `tdtype`; integers only when every component is a whole number."""
+    T = lambda x, shape=None: torch.tensor(x if shape is None else [x], dtype=tdtype)      # noqa
+    forms = [("tuple of floats", tuple(state)), ("tuple of 0-dim tensors", tuple(T(x) for x in state)),
+             ("tuple of 1-element tensors", tuple(T(x, 1) for x in state))]
+    if len(state) == 1:
+        forms += [("bare float", state[0]), ("bare 0-dim tensor", T(state[0])), ("bare 1-element tensor", T(state[0], 1))]
+    else:
+        forms += [("tuple (float, 0-dim tensor)", (state[0], T(state[1]))), ("tuple (0-dim tensor, float)", (T(state[0]), state[1]))]
+    if all(float(x).is_integer() for x in state):
+        forms += [("tuple of ints", tuple(int(x) for x in state))] + ([("bare int", int(state[0]))] if len(state) == 1 else [])
+    return forms
 
 
 def check(ctx):
@@ -40,7 +113,7 @@ def check(ctx):
         dtype = getattr(torch, dname)
         case = {"generator": name, "params": p, "dtype": dname}
         try:
-            out, rq, rec = run_generator(torch, name, p, dtype)
+            out, rq, rec = run_generator_c11(torch, S, name, p, dtype)
         except InternalError:
             raise
         except RecursionError:
@@ -94,6 +167,99 @@ def check(ctx):
             for i, r in enumerate(rq):
                 reqs.append(r)
                 metas.append((case | {"path": i}, {k: [float(x) for x in v[i].tolist()] for k, v in out.items()}))
+    # ---------------- corpus, every tier: NON-default initial states in EVERY spelling (tuple of floats / of 0-dim tensors / of 1-element
+    # tensors, bare float / 0-dim tensor / 1-element tensor, whole numbers as Python ints; the tensors in the requested dtype or the other
+    # one -- the values are dyadic, so the requested state is the same number in both) for every generator and every primary instrument,
+    # in float32 and float64; the jump models at ZERO intensity (written 0 and 0.0: the no-jump limit) and at a positive one.  The first
+    # column is the requested state whatever the other parameters are; shape, dtype, finiteness and positivity as everywhere.  Runs without
+    # jumps that are driven by a supplied engine (Brownian, geometric Brownian, Merton / Kou generators and instruments at zero intensity)
+    # also go to the model (op gen) with the normals the engine handed out.
+    SP_N, SP_n, SP_DT = 3, 4, 1 / 250
+    SP_P = {"sigma": 0.2, "mu": 0.1, "dt": SP_DT, "jm": -0.05, "js": 0.1, "mean_up": 0.02, "mean_down": 0.05, "p_up": 0.3}
+
+    def spelled_call(entry, init_arg, dtype, lam, eng):
+        kw = {"dt": SP_DT, "dtype": dtype}
+        gb = {"sigma": SP_P["sigma"], "mu": SP_P["mu"]}
+        mj = gb | {"jump_per_year": lam, "jump_mean": SP_P["jm"], "jump_std": SP_P["js"]}
+        kj = gb | {"jump_per_year": lam, "jump_mean_up": SP_P["mean_up"], "jump_mean_down": SP_P["mean_down"], "jump_up_prob": SP_P["p_up"]}
+        lv = lambda t, s: 0.2 + 0.0 * s      # noqa
+        if entry in INSTRUMENTS.values():
+            inst = {"BrownianStock": lambda: I.BrownianStock(**gb, **kw), "MertonJumpStock": lambda: I.MertonJumpStock(**mj, engine=eng, **kw),
+                    "KouJumpStock": lambda: I.KouJumpStock(**kj, engine=eng, **kw), "HestonStock": lambda: I.HestonStock(**kw), "CIRRate": lambda: I.CIRRate(**kw),
+                    "VasicekRate": lambda: I.VasicekRate(**kw), "RoughBergomiStock": lambda: I.RoughBergomiStock(**kw),
+                    "LocalVolatilityStock": lambda: I.LocalVolatilityStock(lv, **kw)}[entry]()
+            inst.simulate(n_paths=SP_N, time_horizon=(SP_n - 1) * SP_DT, init_state=init_arg)
+            return dict(inst.named_buffers())
+        a = (SP_N, SP_n)
+        if entry == "brownian":
+            return {"spot": S.generate_brownian(*a, init_state=init_arg, engine=eng, **gb, **kw)}
+        if entry == "geometric_brownian":
+            return {"spot": S.generate_geometric_brownian(*a, init_state=init_arg, engine=eng, **gb, **kw)}
+        if entry == "merton_jump":
+            return {"spot": S.generate_merton_jump(*a, init_state=init_arg, engine=eng, **mj, **kw)}
+        if entry == "kou_jump":
+            return {"spot": S.generate_kou_jump(*a, init_state=init_arg, engine=eng, **kj, **kw)}
+        if entry == "vasicek":
+            return {"spot": S.generate_vasicek(*a, init_state=init_arg, **kw)}
+        if entry == "cir":
+            return {"spot": S.generate_cir(*a, init_state=init_arg, **kw)}
+        if entry == "local_volatility":
+            o_ = S.generate_local_volatility_process(*a, lv, init_state=init_arg, **kw)
+            return {"spot": o_.spot, "volatility": o_.volatility}
+        o_ = (S.generate_heston if entry == "heston" else S.generate_rough_bergomi)(*a, init_state=init_arg, **kw)
+        return {"spot": o_.spot, "variance": o_.variance}
+    SP_STATES = {"brownian": [(-1.5,), (3.0,)], "vasicek": [(0.0625,), (0.0,)], "cir": [(0.0625,), (0.0,)], "heston": [(2.5, 0.0625), (100.0, 1.0)],
+                 "rough_bergomi": [(2.5, 0.0625), (100.0, 1.0)]}
+    sp_i = 0
+    for gname in GENERATORS:
+        for entry in [gname] + ([INSTRUMENTS[gname]] if gname in INSTRUMENTS else []):
+            for lam in ((0, 0.0, 5.0) if gname in ("merton_jump", "kou_jump") else (None,)):
+                for state in SP_STATES.get(gname, [(2.5,), (100.0,)]):
+                    for dname in ("float32", "float64"):
+                        dtype = getattr(torch, dname)
+                        other = torch.float64 if dname == "float32" else torch.float32
+                        for form, init_arg in init_spellings(torch, state, dtype):
+                            sp_i += 1
+                            tdt_ = other if ("tensor" in form and sp_i % 2) else dtype
+                            if tdt_ is not dtype:
+                                init_arg = dict(init_spellings(torch, state, tdt_))[form]
+                            zero = lam is not None and lam == 0
+                            case = {"corpus": "initial state in every spelling", "entry": entry, "init_state": list(state), "spelling": form,
+                                    "tensors_given_in": str(tdt_).replace("torch.", "") if "tensor" in form else None, "dtype": dname,
+                                    "jump_per_year": repr(lam) if lam is not None else None, "n_paths": SP_N, "n_steps": SP_n}
+                            ctx.case(case, True, tag="init-spelling")
+                            ctx.stats["init-spelling:zero-intensity"] += int(zero)
+                            ctx.traces += 1
+                            key = f"init-spelling:{entry}" + (":zero-intensity" if zero else "")
+                            eng = KeepingEngine(torch)
+                            try:
+                                series = spelled_call(entry, init_arg, dtype, lam, eng)
+                            except Exception as e:  # noqa
+                                ctx.fail("a generator / instrument raised on a non-default initial state (" + form + ")", case, key=key + ":error", detail=repr(e)[:200])
+                                continue
+                            bad = {k: [list(t.shape), str(t.dtype)] for k, t in series.items()
+                                   if tuple(t.shape) != (SP_N, SP_n) or t.dtype != dtype or not bool(t.isfinite().all())}
+                            if bad or "spot" not in series:
+                                ctx.fail("a non-default initial state (" + form + "): a series is not a finite (paths, steps) tensor of the requested dtype", case,
+                                         key=key + ":malformed", detail=bad)
+                                continue
+                            for bn, w in zip(["spot", "variance"], state):
+                                wq = float(torch.tensor(w, dtype=dtype))
+                                col = [float(x) for x in series[bn][:, 0].tolist()]
+                                if any(c != wq for c in col):
+                                    ctx.fail("the first column differs from the requested initial state (" + form
+                                             + (", jump intensity zero: the no-jump limit of a jump model starts where it was asked to start" if zero else "") + ")",
+                                             case | {"series": bn}, key=key + ":first-column", detail={"first_column": col, "requested": wq})
+                            if gname in POSITIVE and not bool((series["spot"] > 0).all()):
+                                ctx.fail("an exponential-type price process is not positive (non-default initial state)", case, key=key + ":positivity")
+                            if gname == "cir" and not bool((series["spot"] >= 0).all()):
+                                ctx.fail("CIR variance process is negative", case, key="gen:cir:negative")
+                            zs = [z for z in eng.draws if tuple(z.shape) == (SP_N, SP_n)]
+                            if dname == "float64" and zs and (zero or gname in ("brownian", "geometric_brownian")):
+                                pm = SP_P | {"init": float(state[0]), "lam": 0.0}
+                                for r, rq_ in enumerate(jumpless_requests(gname, pm, zs[-1])):
+                                    reqs.append(rq_)
+                                    metas.append((case | {"path": r}, {"spot": [float(x) for x in series["spot"][r].tolist()]}))
     try:
         outs = ctx.driver(reqs)
     except DriverBroken as e:
@@ -341,17 +507,29 @@ def check(ctx):
                 ("half()", "f16", lambda s_: s_.half()), ("float16()", "f16", lambda s_: s_.float16()), ("bfloat16()", "bf16", lambda s_: s_.bfloat16())]
     CTORS = [("constructor dtype=torch.float32", "f32"), ("constructor dtype=torch.float64", "f64"), ("constructor dtype=None", None)]
 
-    def dtype_session(name, amb, how, want_short, request, order):
-        """one instrument: [simulate,] request, simulate, simulate with another size; False when the backend cannot simulate in that dtype"""
-        ctor_short = want_short if request is None else None
+    def dtype_session(name, amb, how, want_short, request, order, declared=None, target=None, device_only=None):
+        """one instrument: [simulate,] request, simulate, simulate with another size; False when the backend cannot simulate in that dtype.
+        declared = (how, dtype, cast or None for the constructor argument): the instrument ALREADY carries an explicit dtype -- and, with
+        order "after simulate", buffers simulated in it -- when the request under scrutiny is made (a SECOND request: it wins at once, for the
+        existing buffers too); device_only: a to(device) / cpu() call after the request leaves every dtype alone"""
+        ctor_short = want_short if request is None else (declared[1] if (declared is not None and declared[2] is None) else None)
         inst = SYS.make(torch, I, name, ctor_short)
         want = SYS.tdt(torch, want_short if want_short is not None else amb)
         case = {"instrument": name, "global_default_dtype": DT_NAME[amb], "dtype_requested_by": how, "requested": str(want).replace("torch.", ""), "order": order}
-        ctx.case(case, True, tag="dtype-request")
+        if declared is not None:
+            case |= {"dtype_declared_before_by": declared[0], "declared_before": SYS.DT[declared[1]], "device_only_call_afterwards": device_only}
+        ctx.case(case, True, tag="dtype-request" if declared is None else "second-dtype-request")
         ctx.stats[f"dtype-request:{how}"] += 1
         ctx.traces += 1
         rec_ = open_session(inst, name, ctor_short, amb)
-        key = f"instrument:dtype-request:{how}"
+        key = f"instrument:dtype-request:{how}" if declared is None else f"instrument:second-dtype-request:{how}"
+        if declared is not None and declared[2] is not None:
+            try:
+                declared[2](inst)
+            except Exception as e:  # noqa
+                ctx.fail("a dtype request raised", case, key=key + ":error", detail=repr(e)[:200])
+                return
+            rec_(["prim_to", 0, ["dtype", declared[1]]], declared[0])
 
         def verify(stage, shape=None):
             bufs = dict(inst.named_buffers())
@@ -397,18 +575,30 @@ def check(ctx):
             if shape is None:
                 return
             for bn, b in inst.named_buffers():
-                if request is not None and b.dtype != SYS.tdt(torch, amb):
+                if request is not None and declared is None and b.dtype != SYS.tdt(torch, amb):
                     ctx.fail("no dtype requested: a simulated buffer is not in the global default dtype", case | {"buffer": bn}, key="instrument:dtype-request:none",
                              detail=str(b.dtype))
+                if request is not None and declared is not None and b.dtype != SYS.tdt(torch, declared[1]):
+                    ctx.fail("a simulated buffer is not in the dtype the instrument was given (" + declared[0] + ")", case | {"buffer": bn, "stage": "simulated before the second request"},
+                             key="instrument:second-dtype-request:declared-dtype", detail=str(b.dtype))
         if request is not None:
             try:
                 request(inst)
             except Exception as e:  # noqa
                 ctx.fail("a dtype request raised", case, key=key + ":error", detail=repr(e)[:200])
                 return
-            rec_(["prim_to", 0, ["dtype", want_short]], how)
+            rec_(["prim_to", 0, target or ["dtype", want_short]], how)
             if not verify("right after the request"):
                 return
+            if device_only is not None:
+                try:
+                    inst.cpu() if device_only == "cpu()" else inst.to(torch.device("cpu"))
+                except Exception as e:  # noqa
+                    ctx.fail("a device-only call raised", case, key=key + ":device-only:error", detail=repr(e)[:200])
+                    return
+                rec_(["prim_to", 0, ["dtype", None]], device_only)
+                if not verify("after a device-only call that followed the request"):
+                    return
         for stage in ("first simulate() after the request", "second simulate() after the request"):
             shape = simulate(stage)
             if shape is None or not verify(stage, shape):
@@ -423,6 +613,35 @@ def check(ctx):
                         dtype_session(name, amb, how, want_short, request, order)
                 for how, want_short in CTORS:
                     dtype_session(name, amb, how, want_short, None, "before simulate")
+        # ... and on an instrument that ALREADY carries an explicit dtype (constructor argument or an earlier cast) and has been simulated in
+        # it: a second request -- every spelling above, to(tensor), to(instrument), a cast of a derivative written on the instrument -- wins
+        # at once: the existing buffers (and the derived volatility / variance) follow immediately, a device-only call afterwards changes
+        # nothing, the next simulations stay in the dtype requested last.  Every class x every spelling x both global defaults, the earlier
+        # declaration rotating over the forms below (always another dtype than the one requested; now and then the same one, a no-op); a
+        # third of the sessions also with the second request made BEFORE the first simulate (then an earlier half() is possible as well).
+        DECLARED = [("constructor dtype=torch.float32", "f32", None), ("constructor dtype=torch.float64", "f64", None),
+                    ("an earlier to(torch.float64)", "f64", lambda s_: s_.to(torch.float64)), ("an earlier float()", "f32", lambda s_: s_.float()),
+                    ("an earlier double()", "f64", lambda s_: s_.double()), ("an earlier to(dtype=torch.float32)", "f32", lambda s_: s_.to(dtype=torch.float32))]
+        DECLARED_UNSIMULATED = DECLARED + [("an earlier half()", "f16", lambda s_: s_.half()), ("an earlier to(torch.bfloat16)", "bf16", lambda s_: s_.to(torch.bfloat16))]
+        REQUESTS2 = [(h_, w_, r_, None) for h_, w_, r_ in REQUESTS] + [
+            ("to(tensor of dtype float64)", "f64", lambda s_: s_.to(torch.zeros(1, dtype=torch.float64)), ["tensor", "f64"]),
+            ("to(tensor of dtype float32)", "f32", lambda s_: s_.to(torch.zeros(1, dtype=torch.float32)), ["tensor", "f32"]),
+            ("to(instrument of dtype float64)", "f64", lambda s_: s_.to(I.BrownianStock(dtype=torch.float64)), ["ext", "f64"]),
+            ("to(instrument of dtype float32)", "f32", lambda s_: s_.to(I.BrownianStock(dtype=torch.float32)), ["ext", "f32"]),
+            ("EuropeanOption(instrument).to(torch.float64)", "f64", lambda s_: I.EuropeanOption(s_).to(torch.float64), None),
+            ("EuropeanOption(instrument).float()", "f32", lambda s_: I.EuropeanOption(s_).float(), None)]
+        for ai, amb in enumerate(("f32", "f64")):
+            torch.set_default_dtype(SYS.tdt(torch, amb))
+            for pi, name in enumerate(prims):
+                for ri, (how, want_short, request, target) in enumerate(REQUESTS2):
+                    for order in ("after simulate", "before simulate"):
+                        if order == "before simulate" and not g.chance(0.33):
+                            continue
+                        pool = DECLARED if order == "after simulate" else DECLARED_UNSIMULATED
+                        others = [d_ for d_ in pool if d_[1] != want_short]
+                        declared = others[(ai + pi + ri) % len(others)] if not g.chance(0.1) else g.choice([d_ for d_ in pool if d_[1] == want_short] or others)
+                        dtype_session(name, amb, how, want_short, request, order, declared=declared, target=target,
+                                      device_only=g.choice([None, None, "to(torch.device('cpu'))", "cpu()"]))
     finally:
         torch.set_default_dtype(torch.float32)
     # ---------------- user-defined instruments derived from the eight primary classes that override the documented hooks of the base-class
@@ -678,6 +897,9 @@ def check(ctx):
              "float32/float64; random-number engines (antithetic: shape, dtype, closure under negation; Sobol/Box-Muller: equals the Box-Muller "
              "transform of the Sobol points) and generators / instruments driven by them; named-tuple volatility/variance; eight primary instruments with repeated simulate() under changing path counts / horizons (multiples of dt and "
              "fractional numbers of steps on several time grids, directly and through a derivative's maturity) / initial states; 13 spellings of a dtype request "
-             "+ 3 constructor forms x 8 classes x global default float32 / float64 x before / after simulate (also replayed in the system model); user classes derived from "
+             "+ 3 constructor forms x 8 classes x global default float32 / float64 x before / after simulate (also replayed in the system model); a second request (19 spellings) "
+             "on an instrument with an explicit dtype (2 constructor forms, 4-6 earlier casts) x 8 classes x both global defaults, after (always) / before (a third) the first "
+             "simulate, device-only calls in between (system model too); non-default initial states in 7-9 spellings x 2 dtypes x 9 generators and 8 instruments, jump models at "
+             "intensity 0 / 0.0 / 5; user classes derived from "
              "the 8 classes overriding default_init_state (3 forms) simulated without / with init_state, directly and through a derivative; every case "
              "non-trivial; distinct = sha1 of canonical case")
